@@ -31,6 +31,13 @@ def tok_text(toks):
     return s.replace("( ", "(").replace(" )", ")").replace("- ", "-")
 
 
+def tok_text_tight(toks):
+    s = tok_text(toks)
+    for kw in ("NOT", "AND", "OR", "MOD"):
+        s = s.replace(kw + " (", kw + "(")
+    return s
+
+
 def chain(ops, uns=None, paren=None):
     """tokens of operand (op operand)*; uns[i] in '', 'neg', 'not'; paren=(i,j) wraps operands i..j"""
     toks = []
@@ -50,6 +57,14 @@ def chain(ops, uns=None, paren=None):
 
 def gen_chains(tier, rng):
     out = []
+    # a unary operator in front of a parenthesised group, followed by more operators
+    for u in ("neg", "not"):
+        for o1 in OPS:
+            for o2 in OPS:
+                out.append([{"k": "un", "op": u}, {"k": "("}, {"k": "v", "n": "A"}, {"k": "op", "op": o1}, {"k": "v", "n": "B"}, {"k": ")"},
+                            {"k": "op", "op": o2}, {"k": "v", "n": "C"}])
+                out.append([{"k": "v", "n": "A"}, {"k": "op", "op": o1}, {"k": "un", "op": u}, {"k": "("}, {"k": "v", "n": "B"}, {"k": ")"},
+                            {"k": "op", "op": o2}, {"k": "v", "n": "C"}])
     for n in (1, 2, 3):
         for ops in itertools.product(OPS, repeat=n):
             out.append(chain(list(ops)))
@@ -130,6 +145,12 @@ def gen_literals(tier, rng):
     for v in h32:
         out.append(("radix", "&H%X" % v, {"bits": bits_of("%X" % v, 16)}))
         out.append(("radix", "&O%o" % v, {"bits": bits_of("%o" % v, 8)}))
+    # a unary minus directly in front of a hex / octal literal (type minima widen, the value is exact)
+    nv = [0, 1, 0x7fff, 0x8000, 0x8001, 0xffff, 0x10000, 0x7fffffff, 0x80000000, 0x80000001, 0xffff0000, 0xffffffff, 0xfffffffe, 0xffff8000, 0xffff7fff]
+    nv += [rng.randint(0, 65535) for _ in range(300)] + [rng.randint(65536, 0xffffffff) for _ in range(300)]
+    for v in nv:
+        out.append(("nradix", "-&H%X" % v, {"bits": bits_of("%X" % v, 16)}))
+        out.append(("nradix", "-&O%o" % v, {"bits": bits_of("%o" % v, 8)}))
     # fractional literals: SINGLE, or DOUBLE with #
     for w in (0, 1, 7, 32767, 32768, 100000):
         for fr, digits in ((0.5, "5"), (0.25, "25"), (0.125, "125"), (0.0, "0"), (0.75, "75")):
@@ -155,8 +176,13 @@ def run(tier, replay):
         states += res.distinct
         trans += res.generated
     chains = gen_chains(tier, rng)
+    # the same chains with no blank between a keyword operator (NOT, AND, OR, MOD) and an opening parenthesis:
+    # the parenthesis only STARTS the operand, the grouping is the same
+    tight = [c for c in chains if any(t["k"] == "(" for t in c)]
+    chains = chains + tight
+    ntight = len(tight)
     lits = gen_literals(tier, rng)
-    texts = [tok_text(c) for c in chains] + [l[1] for l in lits]
+    texts = [tok_text(c) for c in chains[:len(chains) - ntight]] + [tok_text_tight(c) for c in tight] + [l[1] for l in lits]
     B = 1000
     resps = pool.map([{"op": "shape", "exprs": texts[i:i + B]} for i in range(0, len(texts), B)], timeout=120)
     results = []
